@@ -91,7 +91,7 @@ def run_handlers(pid, tier, seed):
     r1.append(c)
     for mod, cfg, neg in [("MC_HandlerRange.tla", "MC_HandlerRange_fixed.cfg", None),
                           ("MC_HandlerRange.tla", "MC_HandlerRange_wrapping.cfg", "InRange"),
-                          ("MC_HandlersImpl.tla", "MC_HandlersImpl.cfg", None)]:
+                          ("MC_HandlersImpl.tla", "MC_HandlersImpl_thorough.cfg" if tier == "thorough" else "MC_HandlersImpl.cfg", None)]:
         if os.path.exists(os.path.join(vlib.SPEC, cfg)):
             r1.append(vlib.model_check(mod, cfg, expect_violation=neg))
     walks, nwalks = spec_walks(tier, seed)
@@ -149,6 +149,28 @@ def run_values(pid, tier, seed):
         return res
     bads, consumed, notes = vlib.validate("TraceValues.tla", "TraceValues.cfg", g["files"])
     res.update(bads=bads, consumed=consumed, notes=notes)
+    return res
+
+
+def run_values_plus(pid, tier, seed):
+    """C16 adds reader histories (value-tree ownership); C17 adds decoded trees through the slice/map helpers."""
+    res = run_values(pid, tier, seed)
+    if "hang" in res:
+        return res
+    vh = vlib.build_harness()
+    if pid == "C16":
+        g = vlib.run_gen(vh, "hist", tier, seed, only="rdr")
+        tm = ("TraceHist.tla", "TraceHist.cfg")
+    else:
+        g = vlib.run_gen(vh, "trees", tier, seed, only="shapes,random,corpus")
+        tm = ("TraceTrees.tla", "TraceTrees.cfg")
+    res["gens"].append(g)
+    if "hang" in g:
+        res["hang"] = g["hang"]
+        return res
+    bads, consumed, _ = vlib.validate(tm[0], tm[1], g["files"], xmx="3g")
+    res["bads"] += bads
+    res["consumed"] += consumed
     return res
 
 
@@ -325,6 +347,7 @@ FAMILIES = {
     "trees": {"run": run_trees},
     "floats": {"run": run_floats},
     "values": {"run": run_values},
+    "values_plus": {"run": run_values_plus},
     "parse": {"run": run_parse},
     "handlers": {"run": run_handlers},
     "total": {"run": run_total},
@@ -432,7 +455,7 @@ CHECKS.update({
                           "complete for the stated shapes and every recorded result is recomputed by TLC; type exclusivity is asserted "
                           "over 13 typed readers on every input.",
             "level_note": MC_NOTE},
-    "C16": {"family": "values", "level": "exploration",
+    "C16": {"family": "values_plus", "level": "exploration",
             "rule": "every event of the values family carries an input-unchanged bit (private copy compared after the calls); string "
                     "readers and UnescapeStringContent and StdLibCompatibleStringBytes with prefixed destinations over growth-boundary "
                     "slack; dirty and tiny scratch buffers; results re-read after the harness overwrites input and scratch",
@@ -440,7 +463,7 @@ CHECKS.update({
             "level_text": "Memory ownership cannot be enumerated; the clauses (input unchanged, result = destination prefix followed by "
                           "the specified bytes, result unchanged after later overwrites) are evaluated by TLC on every recorded call.",
             "level_note": "sampled shapes of (len, cap, contents); aliasing destinations are outside the quantifier; value trees are covered by the C15/C03 events"},
-    "C17": {"family": "values", "level": "model_checking",
+    "C17": {"family": "values_plus", "level": "model_checking",
             "rule": "all 1- and 2-byte sequences (65792, exhaustive), all 3-byte (thorough: and 4-byte) sequences over the 28 UTF-8 boundary "
                     "bytes, random longer sequences, damaged valid strings; StdLibCompatibleStringBytes with destination shapes",
             "technique": "TLA+ Utf8Sanitize (Unicode table 3-7; R1: idempotent, identity on valid) + TLC validation of recorded helper outputs (R3)",
